@@ -39,7 +39,12 @@ def init_worker(ctx):
 def strategy(ctx):
     return st.builds(
         lambda i, suffix_only: dict(i, cells=None),
-        st.one_of(gen_ir.interface("docstring", suffix=True), gen_ir.interface("docstring", suffix=False), gen_ir.interface("docstring", suffix=True, doc=gen_ir.long_descr, max_params=4)),
+        st.one_of(
+            gen_ir.interface("docstring", suffix=True),
+            gen_ir.interface("docstring", suffix=False),
+            gen_ir.interface("docstring", suffix=True, doc=gen_ir.long_descr, max_params=4),
+            gen_ir.interface("docstring", suffix=True, doc=gen_ir.mixed_descr, name_strategy=gen_ir.rich_names),
+        ),
         st.just(0),
     )
 
